@@ -5,7 +5,7 @@ From Coq Require Import NArith List Bool Arith Lia.
 From CL Require Import Base.Sx Base.Res Base.Str Regex.Rx Regex.RxLemmas Model.Pattern Model.Matcher
   Proofs.MatcherSpec Proofs.MatcherSound Proofs.MatcherExpand Proofs.MatcherComplete
   Proofs.MatcherFinal Proofs.PatternFuel Proofs.AndroidProofs Proofs.MatcherUnique
-  Proofs.MatcherRooted Proofs.MatcherNested.
+  Proofs.MatcherRooted Proofs.MatcherNested Proofs.MozpathProofs.
 Import ListNotations.
 
 (* A fully bound pattern (literals and bound variables only) expands to a path
@@ -237,4 +237,70 @@ Proof.
   exists M. vm_compute in E. inversion E; subst M. split; [reflexivity|].
   split; [split; [reflexivity|split; reflexivity]|].
   split; [vm_compute; reflexivity|]. split; vm_compute; reflexivity.
+Qed.
+
+(* ---- mozpath.match, the glob helper (Proofs/MozpathProofs.v) ------------------------------
+   [glob_rx ts] is the regular expression the function assembles for the glob whose pieces
+   are the tokens ts: GLit s = literal text (escaped character by character, whatever the
+   characters), GStar = a single star, GDirs lead = a double-star component followed by a
+   separator (lead = the separator before it, or nothing at the start), GTail lead = a
+   double star at the end.  [glob_denotes ts path]: path is a filling of the glob -- every
+   star by a separator-free text, every GDirs by its lead alone or lead + something + "/",
+   every GTail by nothing or lead + something -- optionally followed by "/" and anything.
+   For newline-free paths (the `$` caveat of C12_whole_path) matching is EXACTLY that. *)
+Theorem C12_mozpath_match : forall pat ts path, pat <> [] -> glob_regex pat = Ok (glob_rx ts) ->
+  has_char nl path = false ->
+  (mozpath_match path pat = Ok true <-> glob_denotes ts path).
+Proof. exact mozpath_match_iff. Qed.
+
+Theorem C12_mozpath_filled_matches : forall pat ts pieces, pat <> [] ->
+  glob_regex pat = Ok (glob_rx ts) -> Forall2 fills_tok ts pieces ->
+  has_char nl (concat pieces) = false -> mozpath_match (concat pieces) pat = Ok true.
+Proof. exact filled_matches. Qed.
+
+Theorem C12_mozpath_descendant_matches : forall pat ts pieces below, pat <> [] ->
+  glob_regex pat = Ok (glob_rx ts) -> Forall2 fills_tok ts pieces ->
+  has_char nl (concat pieces ++ c_slash :: below) = false ->
+  mozpath_match (concat pieces ++ c_slash :: below) pat = Ok true.
+Proof. exact descendant_matches. Qed.
+
+(* a glob without wildcards matches its own path and what is below it, nothing else: not
+   an ancestor, not a foreign head, not an extended last component (foo/barbaz for foo/bar) *)
+Theorem C12_mozpath_literal : forall pat lit path, pat <> [] ->
+  glob_regex pat = Ok (glob_rx [GLit lit]) -> has_char nl path = false ->
+  (mozpath_match path pat = Ok true <-> path = lit \/ exists r, path = lit ++ c_slash :: r).
+Proof. exact literal_glob. Qed.
+
+Theorem C12_mozpath_foreign_head : forall pat lit ts path, pat <> [] ->
+  glob_regex pat = Ok (glob_rx (GLit lit :: ts)) -> has_char nl path = false ->
+  starts_with lit path = false -> mozpath_match path pat = Ok false.
+Proof. exact foreign_head. Qed.
+
+(* an ancestor has too few separators *)
+Theorem C12_mozpath_ancestor : forall pat ts path, pat <> [] -> glob_regex pat = Ok (glob_rx ts) ->
+  has_char nl path = false -> count_char c_slash path < glob_slashes ts ->
+  mozpath_match path pat = Ok false.
+Proof. exact too_few_separators. Qed.
+
+(* c++/* (metacharacters in a component), foo/**/bar, foo/** and foo/bar as the model
+   tokenises them, with matches and near misses *)
+Example C12_mozpath_example :
+  glob_regex (of_ascii [99;43;43;47;42]) = Ok (glob_rx [GLit (of_ascii [99;43;43;47]); GStar]) /\
+  mozpath_match (of_ascii [99;43;43;47;120;46;102;116;108]) (of_ascii [99;43;43;47;42]) = Ok true /\
+  mozpath_match (of_ascii [99;43;43;47;120;46;102;116;108;47;98;101;108;111;119]) (of_ascii [99;43;43;47;42]) = Ok true /\
+  mozpath_match (of_ascii [99;47;120;46;102;116;108]) (of_ascii [99;43;43;47;42]) = Ok false /\
+  mozpath_match (of_ascii [99;99;47;120;46;102;116;108]) (of_ascii [99;43;43;47;42]) = Ok false /\
+  glob_regex (of_ascii [102;111;111;47;42;42;47;98;97;114])
+    = Ok (glob_rx [GLit (of_ascii [102;111;111]); GDirs [c_slash]; GLit (of_ascii [98;97;114])]) /\
+  mozpath_match (of_ascii [102;111;111;47;98;97;114]) (of_ascii [102;111;111;47;42;42;47;98;97;114]) = Ok true /\
+  mozpath_match (of_ascii [102;111;111;47;97;47;98;47;98;97;114]) (of_ascii [102;111;111;47;42;42;47;98;97;114]) = Ok true /\
+  glob_regex (of_ascii [102;111;111;47;42;42]) = Ok (glob_rx [GLit (of_ascii [102;111;111]); GTail [c_slash]]) /\
+  glob_regex (of_ascii [102;111;111;47;98;97;114]) = Ok (glob_rx [GLit (of_ascii [102;111;111;47;98;97;114])]) /\
+  mozpath_match (of_ascii [102;111;111;47;98;97;114;98;97;122]) (of_ascii [102;111;111;47;98;97;114]) = Ok false /\
+  mozpath_match (of_ascii [102;111;111]) (of_ascii [102;111;111;47;98;97;114]) = Ok false /\
+  glob_denotes [GLit (of_ascii [99;43;43;47]); GStar] (of_ascii [99;43;43;47;120;46;102;116;108]).
+Proof.
+  repeat (split; [vm_compute; reflexivity|]).
+  exists [of_ascii [99;43;43;47]; of_ascii [120;46;102;116;108]], []. split; [|split; [reflexivity|auto]].
+  constructor; [reflexivity|]. constructor; [reflexivity|constructor].
 Qed.
